@@ -1542,7 +1542,11 @@ def np_amin(interp, a, **k):
     a = _as_arr(a)
     n = conc_int(a.shape[0])
     if a.ndim != 1 or n is None:
-        raise Unsupported("amin over symbolic array")
+        # the minimum is attained at some position (over-approximation: nothing else is known about it)
+        ws = [CTX.fresh('argmin', 'int') for _ in range(a.ndim)]
+        for w, d in zip(ws, a.shape):
+            CTX.side.append(And(w >= 0, w < d).t)
+        return a.at(tuple(ws))
     r = a.at((0,))
     for i in range(1, n):
         r = smin(r, a.at((i,)))
@@ -2289,3 +2293,21 @@ def glob_glob(interp, pattern, **k):
 def np_asnumpy(interp, *a, **k):
     # numpy has no asnumpy (cupy does): the code's `except AttributeError` branch is the one taken with xp = numpy
     raise PyRaise('AttributeError', "module 'numpy' has no attribute 'asnumpy'")
+
+
+# =====================================================================================
+# blimpy (external, assumed contract): Waterfall(filename, f_start, f_stop, t_start, t_stop, load_data) is a record of the
+# file's header plus the requested selection; which channels blimpy then selects for a frequency range is its own business
+# (bounded native runs compare against it).
+
+@lib('blimpy.Waterfall')
+def blimpy_waterfall(interp, filename=None, f_start=None, f_stop=None, t_start=None, t_stop=None, load_data=True, **kw):
+    I = _I()
+    files = getattr(interp, 'blimpy_files', None)
+    key = filename if isinstance(filename, str) else getattr(filename, 's', None)
+    if files is None or key not in files:
+        raise Unsupported("blimpy.Waterfall of an unmodelled file")
+    info = files[key]
+    cont = I.SObj(None, {'selection_shape': tuple(info['selection_shape']), 'filename': key}, tag='container')
+    return I.SObj(None, {'header': dict(info['header']), 'container': cont, 'filename': key,
+                         'selection': {'f_start': f_start, 'f_stop': f_stop, 't_start': t_start, 't_stop': t_stop, 'load_data': load_data}}, tag='Waterfall')
